@@ -1,9 +1,8 @@
 SPECIFICATION SSpec
 CONSTANTS
   NeqForeignFamily = TRUE
-  SharedWhitespace = FALSE
-  Thorough = FALSE
-  Texts <- MCTexts
+  SharedWhitespace = TRUE
+  Texts <- NegTexts
 INVARIANTS AcceptIffWellFormed CanonKeepsMeaning
 PROPERTIES CanonFixed
 CHECK_DEADLOCK FALSE
